@@ -221,7 +221,8 @@ Conformance(ll, what, r, fns, e, own) ==
                       /\ \A k \in 1..Len(a.buf.lines[i].c) : a.buf.lines[i].c[k][1] = b.buf.lines[i].c[k][1]
       own1 == IF Len(fns) = 1 /\ what # "rs" THEN FnBlame(e.pre, fns[1], leaves) ELSE own
       own2 == IF penOnly /\ what # "rs" THEN own1 \cup {"C08"} ELSE own1
-      blame ==    (IF leaves # {} THEN own2 \cup FieldOwners(leaves, cur.t.alt, what = "rs") ELSE {})
+      fleaves == IF Len(fns) = 1 /\ fns[1].f = "Decstr" THEN leaves \ {"top", "bottom"} ELSE leaves   \* (whether a soft reset resets the margins: no statement)
+      blame ==    (IF leaves # {} THEN own2 \cup FieldOwners(fleaves, cur.t.alt, what = "rs") ELSE {})
               \cup (IF okP THEN {} ELSE {"C03"})
               \cup (IF okSb \/ what = "rs" THEN {} ELSE own2)
               (* a resize after which the characters are where they should be but some cell lost or changed its pen *)
